@@ -11,6 +11,8 @@ mod c18;
 mod c11;
 mod c12;
 mod c13;
+mod c15;
+mod c16;
 mod c17;
 mod eng;
 mod pair;
@@ -71,6 +73,11 @@ fn main() {
     "c08" => c08::run_all(cases),
     "c18" => run_parallel(cases, c18::run_case, 8),
     "c13" => cases.iter().map(c13::run_case).collect(),
+    "c15" => run_parallel(cases, c15::run_case, 8),
+    "c16" => {
+      c16::install_panic_counter();
+      run_parallel(cases, c16::run_case, 10)
+    }
     "c17" => c17::run_all(cases),
     "stack" => run_parallel(cases, stack::run_case, 8),
     other => {
